@@ -81,6 +81,9 @@ type Expect struct {
 	Tagged      bool
 	TagKeys     map[string]bool
 	Attached    map[string]map[string]string // tags a tagger attached to the record of the file at a path
+
+	consumers map[*Lin][]*RTask          // (cache) tasks that take a file of that lineage as input
+	depCache  map[*RTask]map[*RTask]bool // (cache) see dependents
 }
 
 func Abs(p string) string {
